@@ -364,6 +364,11 @@ type Stats struct {
 	Stopped      bool // stop() ended the exploration early
 }
 
+// DelayBounded switches the cost model of Explore: when true EVERY departure from the default choice
+// costs 1 (delay bounding), not only preemptions of a runnable thread. Used for scenarios with many
+// threads, where even the preemption-free schedules (all orders of n workers) are too many.
+var DelayBounded bool
+
 // Explore enumerates all schedules of body whose number of preemptions is <= bound and calls
 // check after every execution (check returns false to stop). mk must build a completely fresh
 // scenario for each execution and return its body.
@@ -403,7 +408,7 @@ func Explore(bound int, stop func() bool, mk func() func(), check func(x *Exec, 
 		pre := make([]int, len(x.Points)+1)
 		for i, p := range x.Points {
 			pre[i] = cost
-			if p.RunningEnabled && p.Chosen != 0 {
+			if (p.RunningEnabled || DelayBounded) && p.Chosen != 0 {
 				cost++
 			}
 		}
@@ -411,7 +416,7 @@ func Explore(bound int, stop func() bool, mk func() func(), check func(x *Exec, 
 			p := x.Points[i]
 			for alt := 1; alt < len(p.Enabled); alt++ {
 				c := pre[i]
-				if p.RunningEnabled {
+				if p.RunningEnabled || DelayBounded {
 					c++
 				}
 				if c > bound {
